@@ -5,13 +5,13 @@ CONSTANTS
   Names = {"A"}
   SetNames = {0}
   Classes = {"ZONE"}
-  OriginRefs = {0, 5}
+  OriginRefs = {0, 1}
   RefFrom = "NONE"
   RefTo = "NONE"
   HeaderShare = FALSE
   OkSet = {TRUE, FALSE}
   ForeignRefCheck = TRUE
   HeaderSetCheck = TRUE
-  ItemRefs = {0, 5}
+  ItemRefs = {0, 1}
 INVARIANT PrintLeaf
 CHECK_DEADLOCK FALSE
